@@ -145,6 +145,26 @@ func srvChildMain(args []string) int {
 					fmt.Fprintln(c, string(b))
 
 					continue
+				case "rejectnext": // rejectnext <n>: the remote rejects the next n CreateMessage calls
+					if len(f) == 2 {
+						n, _ := strconv.Atoi(f[1])
+
+						var left atomic.Int64
+
+						left.Store(int64(n))
+
+						s.Users[0].Conn.RejectLiteral = func([]byte) error {
+							if left.Add(-1) >= 0 {
+								return errors.New("verif: the remote rejects the message")
+							}
+
+							return nil
+						}
+					}
+
+					fmt.Fprintln(c, "armed")
+
+					continue
 				case "deliver": // deliver <mailbox> <marker>: the remote announces a new message
 					if len(f) == 3 {
 						fmt.Fprintln(c, childDeliver(s, f[1], f[2]))
